@@ -25,7 +25,7 @@ RULE_PROP = {
 class QTask:
     __slots__ = ('uid', 'owner', 'task', 'occ', 'ptr', 'L', 'gen', 'N',
                  'loaded_iter', 'touched_iter', 'last_due_iter', 'stopped',
-                 'epoch', 'dur', 'accepted_t')
+                 'epoch', 'dur', 'accepted_t', 'lineage')
 
     def __init__(self, uid, owner, task, occ, L, gen, N, it, epoch):
         self.uid = uid
@@ -42,6 +42,10 @@ class QTask:
         self.stopped = False
         self.epoch = epoch
         self.accepted_t = L
+        # incarnations linked by replacement share a lineage; a cancel or a
+        # retirement ends it (leftover executions of a cancelled task do not
+        # count against a task added later under the same UID)
+        self.lineage = gen
 
     def finished(self):
         return self.ptr >= len(self.occ)
@@ -209,8 +213,16 @@ class Model:
             self.stat('clean_shutdowns')
             # R-CLEAN: every acknowledged change is in the checkpoint
             for owner in sorted(self.dirty):
-                self.v('R-CLEAN', 'not-checkpointed',
-                       'user %s has acknowledged changes that no completed checkpoint contains after a clean shutdown' % owner)
+                # what a restart would bring back vs what was acknowledged
+                live = {u: q.gen for u, q in self.queue.items()
+                        if q.owner == owner and bisect.bisect_left(q.occ, self.W, q.ptr) < len(q.occ)}
+                snap = {u: q.gen for u, q in self.snap.get(owner, {}).items()
+                        if bisect.bisect_left(q.occ, self.W, q.ptr) < len(q.occ)}
+                if live != snap:
+                    diff = sorted(set(live.items()) ^ set(snap.items()))[:4]
+                    self.v('R-CLEAN', 'not-checkpointed',
+                           'after a clean shutdown the checkpoint of user %s differs from the acknowledged queue: %s'
+                           % (owner, diff))
             self.check_gone(final=True)
         elif how == 'crash-plan':
             self.stat('crashes')
@@ -305,10 +317,39 @@ class Model:
     def on_resched(self, r):
         self.last_resched[r['uid']] = r
 
+    def conn_of_cb(self):
+        if self.cur_cb and self.cur_cb.get('w') == 'io' and 'c' in self.cur_cb:
+            return self.conn.get(self.cur_cb['c'])
+        return None
+
+    def unseen_effect(self, kind, uid):
+        """the peer has hung up: no reply will ever be seen, so what the
+        instruction did is read off the watcher start/stop it caused"""
+        c = self.conn_of_cb()
+        if c is None or not c['pclosed'] or c['info'] is None:
+            return
+        instr = c['info']['instr']
+        want = 'add' if kind == 'start' else 'cancel'
+        for n in range(c['answered'], len(instr)):
+            if instr[n][0] == want and instr[n][1] == uid:
+                # everything before it that went unanswered had no effect
+                for m in range(c['answered'], n):
+                    if instr[m][0] == 'cancel' and instr[m][1] in c.get('stops', ()):
+                        self.apply_instr(c, instr[m], True, None, 'unseen')
+                    else:
+                        self.apply_instr(c, instr[m], False, None, 'unseen')
+                self.apply_instr(c, instr[n], True, None, 'unseen')
+                c['answered'] = n + 1
+                self.stat('unseen_replies')
+                return
+        if kind == 'stop':
+            c.setdefault('stops', set()).add(uid)
+
     def on_start(self, r):
         uid = r['uid']
         rs = self.last_resched.get(uid, {})
         self.start_seen[uid] = self.iter
+        self.unseen_effect('start', uid)
         if self.epoch > 0 and not self.reload_checked and self.iter == 0:
             self.armed[uid] = {'owner': r.get('owner'), 'past': bool(rs.get('past')),
                                'ret': rs.get('ret'), 'maxsimul': r.get('maxsimul')}
@@ -317,8 +358,16 @@ class Model:
         uid = r['uid']
         self.stop_seen[uid] = self.iter
         q = self.queue.get(uid)
-        if q is not None and q.finished():
+        in_io = bool(self.cur_cb and self.cur_cb.get('w') == 'io')
+        if in_io:
+            self.unseen_effect('stop', uid)
+            q = self.queue.get(uid)
+        if q is not None and q.finished() and not in_io:
+            # retired by the daemon: it is gone from now on
             q.stopped = True
+            del self.queue[uid]
+            self.ended_tasks.pop(uid, None)
+            self.stat('retired')
 
     def on_signal(self, r):
         self.sigs.append(r['sig'])
@@ -338,6 +387,8 @@ class Model:
     def on_accept(self, r):
         c = self.conn.get(r['c'])
         if c:
+            c['open_at_accept'] = sum(1 for x in self.conn.values()
+                                      if x['accepted'] and not x['closed'])
             c['accepted'] = True
 
     def on_pclose(self, r):
@@ -392,9 +443,13 @@ class Model:
         if own is not None:
             o = self.resolve_user(own)
             if o is None or o != peer:
-                # naming somebody else: must not be accepted as that user;
-                # refusing is what the daemon documents
-                return {'fail'}
+                # naming somebody else (or nobody we know): it must never be
+                # accepted AS that user; refusing it, or taking it as the
+                # peer's own task, both keep users apart.  What happened is
+                # read off the reply and R-RUNAS / R-LIST hold it to that.
+                if sp.get('start') is None or peer not in self.users:
+                    return {'fail'}
+                return {'ok', 'fail'}
         if sp.get('start') is None:
             return {'fail'}
         if peer not in self.users:
@@ -424,7 +479,7 @@ class Model:
             cal = c['info'].get('cal')
             exp = self.expected_add(peer, uid, task, cal)
             got = 'ok' if ok else 'fail'
-            if got not in exp:
+            if got not in exp and not (status == 'unseen' and not ok):
                 q = self.queue.get(uid)
                 self.v('R-REPLY', 'add-%s-expected-%s' % (got, '/'.join(sorted(exp))),
                        'add of %r by peer %s answered %r; existing owner %s'
@@ -441,6 +496,7 @@ class Model:
                           self.limit_of(task, cal), self.iter, self.epoch)
                 if old is not None:
                     q.touched_iter = self.iter
+                    q.lineage = old.lineage
                 self.queue[uid] = q
                 self.dirty.add(peer)
                 self.stat('adds_accepted')
@@ -451,7 +507,7 @@ class Model:
             q = self.queue.get(uid)
             exp = 'ok' if (q is not None and q.owner == peer) else 'fail'
             got = 'ok' if ok else 'fail'
-            if got != exp:
+            if got != exp and not (status == 'unseen' and not ok):
                 self.v('R-REPLY', 'cancel-%s-expected-%s' % (got, exp),
                        'cancel of %r by peer %s answered %r; owner %s'
                        % (uid, peer, status, q.owner if q else None))
@@ -477,13 +533,33 @@ class Model:
         info = c['info']
         if info is None:
             return
+        if not c.get('got_recv') and not c['buf'] and c['answered'] == 0 and not c['pclosed'] \
+                and (info['kind'] == 'get' or info['instr']):
+            # turned away without being read
+            if c.get('open_at_accept', 0) >= 64:
+                self.stat('connections_refused')
+            else:
+                self.v('R-SERVE', 'refused',
+                       'connection of peer %s was closed unread while only %d connections were open'
+                       % (c['peer'], c.get('open_at_accept', 0)))
+            return
         if info['kind'] == 'get':
             self.check_get(c)
         elif info['kind'] in ('add', 'cancel', 'raw'):
             self.eat_replies(c)
+            if c['pclosed']:
+                for m in range(c['answered'], len(info['instr'])):
+                    self.apply_instr(c, info['instr'][m], False, None, 'unseen')
+                c['answered'] = len(info['instr'])
             if c['answered'] < len(info['instr']) and not c['pclosed']:
-                if not c['accepted'] or self.opts.get('allow_refused_conns') and c['answered'] == 0 and not c.get('got_recv'):
-                    self.stat('connections_refused')
+                if not c.get('got_recv') and c['answered'] == 0:
+                    # turned away without being read
+                    if c.get('open_at_accept', 0) >= 64:
+                        self.stat('connections_refused')
+                    else:
+                        self.v('R-SERVE', 'refused',
+                               'connection of peer %s was closed unread while only %d connections were open'
+                               % (c['peer'], c.get('open_at_accept', 0)))
                 else:
                     self.v('R-REPLY', 'missing-reply',
                            'peer %s sent %d instructions, got %d replies before the daemon closed the connection'
@@ -518,10 +594,11 @@ class Model:
         if '?' in route:
             route, params = route.split('?', 1)
         if target != peer and peer != 0:
-            if code != 403 or body:
-                self.v('R-ISOL', 'foreign-listing',
-                       'GET %s by peer %s answered %d with %d body bytes' % (path, peer, code, len(body)))
-            return
+            if code == 403 and not body:
+                return
+            # not refused: then whatever is shown must be the caller's own
+            # (it is judged as a listing of the caller's queue below)
+            target = peer
         mine = {u: q for u, q in self.queue.items() if q.owner == target}
         others = {u: q for u, q in self.queue.items() if q.owner != target}
         if route == 'sched':
@@ -624,7 +701,8 @@ class Model:
         q = self.queue.get(uid)
         self.running[r['pid']] = {'uid': uid, 'norun': norun, 't_spawn': W,
                                   't_exit': W + r['life'], 'delivered': False,
-                                  'epoch': self.epoch, 'gen': q.gen if q else None}
+                                  'epoch': self.epoch, 'gen': q.gen if q else None,
+                                  'lineage': q.lineage if q else None}
         n = self.iter_spawns.get(uid, 0)
         self.iter_spawns[uid] = n + 1
         if q is None:
@@ -652,7 +730,8 @@ class Model:
         # ---- C12
         N = q.N
         mine = [p for pid, p in self.running.items()
-                if p['uid'] == uid and not p['norun'] and pid != r['pid'] and p['epoch'] == self.epoch]
+                if p['uid'] == uid and not p['norun'] and pid != r['pid'] and p['epoch'] == self.epoch
+                and p['lineage'] == q.lineage]
         true_running = sum(1 for p in mine if p['t_exit'] > W)
         known_running = sum(1 for p in mine if not p['delivered'])
         if N is None:
